@@ -23,6 +23,15 @@ Check (C03_distinct :
   forall r k p cs all, enum_all r k p cs = Some all -> NoDup cs -> NoDup (map m_combo all)).
 Check (eq_refl : subset_of = fun n s => StronglySorted N.lt s /\ Forall (fun x => (x < n)%N) s).
 Check (eq_refl : cap_of = fun mx => Nat.max mx 1).
+From VP Require Import Sase.ProofsBounds Sase.ProofsCompile.
+Check (C03_engine_captures_are_power_sets :
+  forall steps negs part max_runs st lim evs en',
+    count_all steps <= 1 ->
+    run_engine (mkCfg (compile steps) negs part max_runs st lim) engine0 evs = Some en' ->
+    forall r, (In r (e_runs en') \/ exists k rs, In (k, rs) (e_parts en') /\ In r rs) -> r_inval r = false ->
+      forall k, r_kc r = Some k -> KInv k /\ (k_deferred k <> None -> k_needs k = true)).
+Check (eq_refl : count_all = fun ss => length (filter st_all ss)).
+Print Assumptions C03_engine_captures_are_power_sets.
 Print Assumptions C03_capture_is_power_set.
 Print Assumptions C03_capture_family.
 Print Assumptions C03_enumeration.
